@@ -9,11 +9,11 @@ from harness.common import vec, E
 from harness.tr import mk_array
 
 EVIDENCE = {
-    "functions": ["operators.crossratio (points 1-D/2-D/3-D, from_point, four lines, four planes)", "operators.harmonic_set", "operators.is_coplanar/is_collinear/is_concurrent",
+    "functions": ["operators.crossratio (points 1-D/2-D/3-D, from_point, four lines)", "operators.harmonic_set", "operators.is_coplanar/is_collinear/is_concurrent",
                   "LineTensor.base_point", "SubspaceTensor.general_point", "PointLikeTensor.__add__/__mul__", "LineTensor.direction", "utils.math.det/matvec"],
     "bounds": "line spanned by free real points a, b in dimension 1, 2, 3; four free homogeneous parameters (mu_k : xi_k) each (so a point at infinity or at the origin "
               "among the four is inside the query); pencil vertex o a free real point; single objects",
-    "outside": "collections; cross ratio of four planes and harmonic_set in 3-D go through the SVD contract stub (thorough); rounding",
+    "outside": "collections; cross ratio of four planes and harmonic_set in 3-D go through the SVD contract stub (harmonic_set and the symmetries in 3-D: built, tier attempt, undecided); rounding",
     "assumptions": ["ProjectiveTensor.__eq__ uses the is_multiple lemma (proved in C20) instead of the implementation, to avoid 8 forks per ==",
                     "invariance under a projective transformation = closed form (this check, for arbitrary spanning points) + linearity of point images (C07 point-image=M.x)"],
 }
